@@ -81,16 +81,11 @@ node_mod.now = _now
 seg_mod.now = _now
 filenode_mod.now = _now
 
-_node_read = hlib.strip_logs(node_mod.DownloadNode.read)
 # Segmentation is driven only through its public surface (start / the Deferreds returned by the node's get_segment /
 # pauseProducing / resumeProducing / stopProducing); its private methods are looked up by name only to strip their log
 # statements and to record what was executed, so an internal re-organisation is decided, not a harness error.
-for _n, _f in list(vars(seg_mod.Segmentation).items()):
-    if callable(_f) and not isinstance(_f, (staticmethod, classmethod)) and hasattr(_f, "__code__"):
-        if _n in ("_fetch_next", "_got_segment", "_retry_bad_segment", "_error", "stopProducing"):
-            hlib.strip_method(seg_mod.Segmentation, _n)
-        else:
-            hlib.encoded(_f)
+from _stripall import strip_all
+strip_all(seg_mod.Segmentation)
 hlib.encoded(spans_mod.overlap)
 
 
@@ -185,7 +180,7 @@ def h_node_read_clip(F: int, offset: int, size: int, size_none: bool) -> bool:
     saved = node_mod.Segmentation
     node_mod.Segmentation = _RecSegmentation
     try:
-        d = _node_read(nd, consumer, offset, None if size_none else size)
+        d = nd.read(consumer, offset, None if size_none else size)
     finally:
         node_mod.Segmentation = saved
     out = _collect(d)
@@ -669,8 +664,7 @@ class _RecFetcher(object):
 
 
 node_mod.SegmentFetcher = _RecFetcher
-for _n in ("get_segment", "_start_new_segment", "fetch_failed", "process_blocks"):
-    hlib.strip_method(node_mod.DownloadNode, _n)
+strip_all(node_mod.DownloadNode)
 hlib.encoded(node_mod.DownloadNode._deliver, node_mod.DownloadNode._extract_requests, node_mod.DownloadNode._cancel_request,
              node_mod.Cancel.cancel)
 
